@@ -16,6 +16,36 @@ Theorem c17_zero_inert_every_method :
 Proof. apply zero_inert_static. vm_compute. reflexivity. Qed.
 Print Assumptions c17_zero_inert_every_method.
 
+(* (a') static, results: for every exported method of Stack, *Stack,
+   Condition, *Condition in the source now - except the two initialisers, the
+   error-returning Valid / IsEqual, the truthful IsZero / IsEmpty and the
+   sentinel strings of ID / Kind / Addr - NO execution on a zero-valued or
+   freed receiver, whatever the arguments, reaches a place where a result
+   could become anything but the zero value of its type (false, 0, nil, "",
+   the zero Stack/Condition or the receiver handed back). *)
+Theorem c17_zero_results_every_method :
+  forall e, In e ir_entries_res -> is_inst_class e = true -> named zero_res_exceptions e = false ->
+            entry_ok ir_table bad_zero_res env_zero e.
+Proof. apply zero_results_static. vm_compute. reflexivity. Qed.
+Print Assumptions c17_zero_results_every_method.
+
+(* the result-tracking entry list covers the same methods as the entry list of
+   (a), and the analysis has something to rule out: run for an INITIALISED
+   receiver it rejects Len, Index, String, Pop, ... (c17_results_nonvacuous) *)
+Theorem c17_result_entries_complete : same_entry_names = true.
+Proof. vm_compute. reflexivity. Qed.
+Print Assumptions c17_result_entries_complete.
+
+Example c17_results_nonvacuous :
+  let U_init := refine 80 ir_table bad_zero_res env_init [] in
+  forallb (fun nm => existsb (fun e => bytes_eqb (en_name e) nm && (en_recv e =? rc_Stack)%N &&
+                                       negb (named zero_res_exceptions e) &&
+                                       entry_accepted ir_table U_zero_res e &&
+                                       negb (entry_accepted ir_table U_init e))
+                             ir_entries_res)
+          (map B ["Len"; "Index"; "String"; "Pop"; "Unmarshal"; "Cap"; "IsFIFO"; "Traverse"]%string) = true.
+Proof. vm_compute. reflexivity. Qed.
+
 (* (b) Reset removes every element, nil ones included, while keeping kind,
    capacity, options and policies (the configuration record c is returned
    unchanged) *)
